@@ -1,9 +1,11 @@
 #!/bin/bash
 # Runs the quick (or $1) command of every claimed property on /repo and prints one line each.
 tier=${1:-quick}
+shift
+props=${@:-C15 C16 C13 C11 C14 C10 C02 C01 C08 C07 C06 C04 C09 C03 C05}
 cd /verif
 mkdir -p /tmp/runall
-for p in $(python3 -c "import json;print(' '.join(c['property_id'] for c in json.load(open('MANIFEST.json'))['checks']))"); do
+for p in $props; do
   t0=$(date +%s)
   ./verif check $p --tier $tier > /tmp/runall/$p.$tier.log 2>&1
   rc=$?
